@@ -79,7 +79,12 @@ func (x *Exec) wireDecode(st *State, order string, t types.Type, chunk string) s
 		off := int64(0)
 		for i := 0; i < u.NumFields(); i++ {
 			n, _ := wireSize(u.Field(i).Type())
-			fs = append(fs, x.wireDecode(st, order, u.Field(i).Type(), sSl(SSeqI, chunk, num(off), num(off+n))))
+			if u.Field(i).Name() == "_" {
+				// encoding/binary skips blank fields when reading: they stay zero
+				fs = append(fs, x.wireDecode(st, order, u.Field(i).Type(), app(SSeqI+"_rep", num(n), "0")))
+			} else {
+				fs = append(fs, x.wireDecode(st, order, u.Field(i).Type(), sSl(SSeqI, chunk, num(off), num(off+n))))
+			}
 			off += n
 		}
 		return d.Make(fs)
@@ -122,6 +127,11 @@ func (x *Exec) wireEncode(st *State, order string, t types.Type, v string) strin
 		out := ""
 		for i := 0; i < u.NumFields(); i++ {
 			e := x.wireEncode(st, order, u.Field(i).Type(), d.Get(i, v))
+			if u.Field(i).Name() == "_" {
+				// ... and writes zeros for them
+				n, _ := wireSize(u.Field(i).Type())
+				e = app(SSeqI+"_rep", num(n), "0")
+			}
 			if out == "" {
 				out = e
 			} else {
